@@ -423,6 +423,16 @@ func (c *FnCtx) loopBodies(li *loopInfo, st *State, cond Term, from *ssa.BasicBl
 			continue
 		}
 		c.emit(&Obligation{Uses: bc.cl.uses, Name: fmt.Sprintf("%s.%s", c.spec.oname(), bc.name), Kind: "loop-body", Clause: bc.cl.src, Where: fmt.Sprintf("iteration of loop %d ending at b%d", li.ordinal, from.Index), Hyp: cond, Goal: t})
+		// vacuity guard: the hypothesis of an implication must be able to hold at some back edge
+		if imp, ok := bc.body.(*eBinary); ok && imp.op == "==>" && !c.dry {
+			if h, err := c.evalBool(imp.x, env); err == nil {
+				if c.hypSites == nil {
+					c.hypSites = map[string][]Term{}
+				}
+				n := fmt.Sprintf("%s.%s", c.spec.oname(), bc.name)
+				c.hypSites[n] = append(c.hypSites[n], and(cond, h))
+			}
+		}
 	}
 }
 
